@@ -43,7 +43,8 @@ REGISTRATION = {
             "an explicit outcome, the harness advances fake time).",
 }
 
-MODULES = ["OllamaVerif.Properties.C07", "OllamaVerif.Properties.C07Batch", "OllamaVerif.Tie.C07"]
+MODULES = ["OllamaVerif.Properties.C07", "OllamaVerif.Properties.C07Batch", "OllamaVerif.Properties.C07Stop",
+           "OllamaVerif.Tie.C07"]
 THEOREMS = [
     "OllamaVerif.C07.slot_exclusive",
     "OllamaVerif.C07.no_free_slot_no_load",
@@ -87,6 +88,11 @@ THEOREMS = [
     "OllamaVerif.C07.demo_runs",
     "OllamaVerif.C07.demo_mid",
     "OllamaVerif.Tie.C07.tree_reachable_coherent_owned",
+    # the cut of the record next to TruncateStop (Properties/C07Stop.lean)
+    "OllamaVerif.C07.splitBack_spec",
+    "OllamaVerif.C07.truncateStop_spec",
+    "OllamaVerif.C07.stop_removes_or_truncates",
+    "OllamaVerif.C07.stop_cut_record",
 ]
 OVERLAY = {
     "runner/ollamarunner/zz_verif_c07_test.go": "runner_ollamarunner/zz_verif_c07_test.go",
